@@ -151,4 +151,64 @@ B('G9-bus-derive-max-persist', ['C17'], 'bus.py', 'Bus._derive',
 B('G9-batch-derive-chunksize', ['C19', 'C18'], 'batch.py', 'Batch._derive',
   'chunksize=self._chunksize,', 'chunksize=1,', 'G9', 'Batch._derive')
 
+# ---------------------------------------------------------------------------------- A (C01)
+B('A1-append-no-filter', ['C01', 'C09'], 'type_blocks.py', 'TypeBlocks.append',
+  'self._blocks.append(immutable_filter(block))', 'self._blocks.append(block)', 'A-R1', 'TypeBlocks.append')
+B('A1-from-blocks-no-filter', ['C01'], 'type_blocks.py', 'TypeBlocks.from_blocks',
+  'blocks.append(immutable_filter(block))', 'blocks.append(block)', 'A-R1', 'TypeBlocks.from_blocks')
+B('A1-series-init-raw', ['C01'], 'series.py', 'Series.__init__',
+  'self.values = immutable_filter(values)', 'self.values = values', 'A-R1', 'Series.__init__')
+B('A1-arraygo-cache-unfrozen', ['C01'], 'array_go.py', 'ArrayGO._update_array_cache',
+  'array.flags.writeable = False\n                self._array = array', 'self._array = array', 'A-R1', 'ArrayGO._update_array_cache')
+B('A1-extract-labels-raw', ['C01'], 'index.py', 'Index._extract_labels',
+  'return immutable_filter(labels)', 'return labels', 'A-R1', 'Index.__init__')
+B('A1-indexgo-recache-unfrozen', ['C01', 'C09'], 'index.py', '_IndexGOMixin._update_array_cache',
+  'self._labels, _ = iterable_to_array_1d(\n                self._labels_mutable,\n                dtype=self._labels_mutable_dtype)',
+  'self._labels = np.array(self._labels_mutable, dtype=self._labels_mutable_dtype)', 'A-R1', '_update_array_cache')
+B('A1-raw-ctor-new-site', ['C01', 'C03'], 'type_blocks.py', 'TypeBlocks.transpose',
+  'return self.from_blocks(array)', 'a2 = array.copy()\n        return self.__class__(blocks=[a2], dtypes=[a2.dtype] * a2.shape[1], index=[(0, i) for i in range(a2.shape[1])], shape=a2.shape)',
+  'A-R1', 'TypeBlocks.transpose')
+B('A3-assign-into-view', ['C01', 'C08'], 'type_blocks.py', 'TypeBlocks._assign_from_bloc_by_unit',
+  'assigned = block.copy()', 'assigned = block', 'A-R3', '_assign_from_bloc_by_unit')
+B('A3-index-fillna-inplace', ['C01', 'C08'], 'index.py', 'Index.fillna',
+  'assigned = values.copy()', 'assigned = values', 'A-R3', 'Index.fillna')
+B('A3-boolean-blocks-view', ['C01', 'C08', 'C14'], 'type_blocks.py', 'TypeBlocks._assign_from_boolean_blocks_by_blocks',
+  'assigned = block_sub.copy()', 'assigned = block_sub', 'A-R3', '_assign_from_boolean_blocks_by_blocks')
+B('A3-thaw-owned', ['C01'], 'type_blocks.py', 'TypeBlocks.equals',
+  'for block in eq._blocks:', 'for block in self._blocks:', 'A-R3', 'TypeBlocks.equals')
+B('A3-sort-owned', ['C01'], 'series.py', 'Series.sort_values',
+  'order = np.argsort(cfs_values, kind=kind)', 'self.values.sort(kind=kind)\n        order = np.argsort(cfs_values, kind=kind)', 'A-R3', 'Series.sort_values')
+B('A4-typeblocks-setstate', ['C01', 'C16'], 'type_blocks.py', 'TypeBlocks.__setstate__',
+  'b.flags.writeable = False', 'pass', 'A-R4', 'TypeBlocks.__setstate__')
+B('A4-series-setstate', ['C01', 'C16'], 'series.py', 'Series.__setstate__',
+  'self.values.flags.writeable = False', 'pass', 'A-R4', 'Series.__setstate__')
+B('A4-index-setstate-positions', ['C01', 'C16'], 'index.py', 'Index.__setstate__',
+  'self._positions.flags.writeable = False', 'pass', 'A-R4', 'Index.__setstate__')
+B('A4-deepcopy-flag', ['C01', 'C16'], 'util.py', 'array_deepcopy',
+  'post.flags.writeable = array.flags.writeable', 'pass', 'A-R4', 'array_deepcopy')
+B('A4-deepcopy-plain-copy', ['C01', 'C16'], 'series.py', 'Series.__deepcopy__',
+  'obj.values = array_deepcopy(self.values, memo)', 'obj.values = self.values.copy()', 'A-R', 'Series.__deepcopy__')
+B('A5-freeze-caller-array', ['C01'], 'frame.py', 'Frame.__init__',
+  'if own_data:\n                data.flags.writeable = False', 'if True:\n                data.flags.writeable = False', 'A-R5', 'Frame.__init__')
+B('A6-setitem-on-series', ['C01'], 'series.py', 'Series',
+  '    def __len__(self) -> int:', '    def __setitem__(self, key, value):\n        v = self.values.copy()\n        v[key] = value\n        v.flags.writeable = False\n        self.values = v\n\n    def __len__(self) -> int:', 'A-R6', 'Series')
+B('A2-blocks-to-array-unfrozen', ['C01'], 'type_blocks.py', 'TypeBlocks._blocks_to_array',
+  'array.flags.writeable = False\n        return array', 'return array', 'A-R2', None)
+B('A2-ih-unary-unfrozen', ['C01'], 'index_hierarchy.py', 'IndexHierarchy._ufunc_unary_operator',
+  'array.flags.writeable = False', 'pass', 'A-R2', 'IndexHierarchy._ufunc_unary_operator')
+B('A2-series-unique-unfrozen', ['C01'], 'series.py', 'Series.unique',
+  'array.flags.writeable = False', 'pass', 'A-R2', 'Series.unique')
+B('A2-ih-isin-unfrozen', ['C01'], 'index_hierarchy.py', 'IndexHierarchy.isin',
+  'array.flags.writeable = False', 'pass', 'A-R2', 'IndexHierarchy.isin')
+N('A-roll-freeze-redundant', ['C01'], 'index.py', 'Index.roll',
+  'values.flags.writeable = False', 'pass')
+N('A-inline-copy-freeze', ['C01'], 'series.py', 'Series.__init__',
+  'self.values = immutable_filter(values)', 'self.values = values.copy()\n                self.values.flags.writeable = False')
+N('A-empty-like-copy', ['C01', 'C08'], 'type_blocks.py', 'TypeBlocks._assign_from_bloc_by_unit',
+  'assigned = block.copy()', 'assigned = np.empty_like(block)\n                    assigned[...] = block')
+N('A-values-view', ['C01'], 'index.py', 'Index.values',
+  'return self._labels', 'return self._labels[:]')
+N('A-series-reindex-freeze-redundant', ['C01'], 'type_blocks.py', 'TypeBlocks._shift_blocks',
+  'b.flags.writeable = False', 'pass')
+
 VARIANTS = V
